@@ -140,7 +140,11 @@ func init() {
 			c.Cov["rule"] = "E3: every history up to the depth bound over {swap (plain / with witness / two inputs), melt quote (external, internal), melt x {Succeeded, Pending, Failed->NotFound, error->Succeeded}, poll / state check x {Succeeded, Failed}, mint quote, settle, mint (fresh, same outputs), rotate, restart} over 3 proofs, 2 mint quotes, 2 melt quotes; in every distinct state ProofsStateCheck is asked every sequence of length 1..L over {Y of each tracked proof, unknown point, not-a-point, non-hex} and RestoreSignatures every sequence of length 1..L over {signed B_, refused B_, latest signed B_, unknown B_, malformed}, through the Go API and the HTTP handler, and compared with the reference model that is fed only from responses; melts also with an input that carries a witness (settled directly and through a later poll); in every state one whole-alphabet query per endpoint is repeated with a storage error injected at each of its read calls: the answer must be an error or identical to the fault-free one"
 			runSpecs(c, c15Specs(c.Quick()))
 			c.Cov["rule_schedules"] = "E1 (beyond the statement's quantifier; scenario bodies of C01): melts, polls and swaps overlapping on one quote / one proof; in every execution a proof consumed by a melt whose payment succeeded or is in flight is reported SPENT or PENDING by the final state check"
-			runSched(c, "C15", []string{"S10-melt-poll-swap", "S12f-meltfails-remelt-swap"}, 2)
+			if c.Quick() {
+				runSched(c, "C15", []string{"S10-melt-poll-swap", "S12f-meltfails-remelt-swap"}, 2)
+			} else {
+				runSchedAll(c, "C15", []string{"S10-melt-poll-swap", "S12f-meltfails-remelt-swap"}, 2)
+			}
 		},
 		Worker: dispatchWorker(bfs.Worker(c15All)),
 		Replay: func(p string) int {
